@@ -81,6 +81,7 @@ type checker struct {
 	fresh                      func() *util.Slab
 	small                      *util.Slab
 	n                          int
+	force                      int
 	clean                      *util.Slab
 	cleanDirty16, cleanDirty32 int
 }
@@ -149,6 +150,9 @@ func (c *checker) one(text []rune, pat []rune, cs, norm, fwd bool, heavy bool) {
 		forceRunes := c.rng.Intn(3) == 0
 		withPos := c.rng.Intn(2) == 0
 		slabKind := c.rng.Intn(4)
+		if c.force > 0 { // the long class enumerates slab kind x position tracking
+			slabKind, withPos = (c.force-1)%4, (c.force-1)/4 == 1
+		}
 		var slab *util.Slab
 		slabName := "nil"
 		switch slabKind {
